@@ -737,6 +737,9 @@ def c10_jobs(tier):
         ramp("evwait"), ramp("procwait"), ramp("guardq"), ramp("holders"), ramp("timers", 600), ramp("oqueue", 600),
         ramp("observers", 600), ramp("closing"), ramp("restart"),
         dict(ramp("closing"), name="ramp-closing-fptrap", opts=dict(mode="closing", fptrap=1)),
+        # data arrays on both sides of their growth point (1023-2049 samples), copied onto targets with an earlier life
+        dict(name="data-arrays", harness="c18_data", opts=dict(mode="big"), bound_min=0, bound_max=0, deadline=600,
+             crash_is_violation=True),
     ]
     return jobs
 
@@ -760,7 +763,7 @@ spec("C10", jobs=c10_jobs, crash_is_violation=True,
      budget=dict(quick=1800, thorough=7200),
      rule="union jobs: distinct choice sequences within the deviation bound; ramps: every (population, operation, position) tuple; "
           "distinct_nontrivial = distinct outcome signatures",
-     assumptions=DES_ASSUME + ["data-array thresholds (dataset/timeseries at 1023-2049 samples) are exercised by the C17/C18 harnesses under the same sanitizer build"])
+     assumptions=DES_ASSUME + ["data-array thresholds (dataset/timeseries at 1023-2049 samples, sort/copy onto empty, smaller and larger targets/histogram/correlogram) are the C18 harness's 'big' mode, run here as job data-arrays under the same sanitizer build"])
 
 
 # ----------------------------------------------------------------------------- C17
@@ -807,11 +810,16 @@ def c18_jobs(tier):
         return [j("small-len6", mode="small", maxlen=6), j("perm6", mode="perm", maxlen=6), j("big", mode="big"),
                 j("ts-len4", mode="ts", maxlen=4),
                 j("small-len6-huge", mode="small", maxlen=6, huge=1),
+                # statistics are computed inside trials, i.e. on concurrent worker threads, each on its own objects
+                dict(j("threads-free-running", mode="free"), workers=1),
+                dict(j("tsan-free-running", mode="free"), cfg="tsan", workers=1),
                 dict(j("small-len5-fptrap", mode="small", maxlen=5, fptrap=1), cfg="rel"),
                 dict(j("ts-len4-fptrap", mode="ts", maxlen=4, fptrap=1), cfg="rel")]
     return [j("small-len8", mode="small", maxlen=8), j("perm8", mode="perm", maxlen=8), j("big", mode="big"),
             j("ts-len6", mode="ts", maxlen=6),
             j("small-len8-huge", mode="small", maxlen=8, huge=1),
+            dict(j("threads-free-running", mode="free"), workers=1),
+            dict(j("tsan-free-running", mode="free"), cfg="tsan", workers=1),
             dict(j("small-len7-fptrap", mode="small", maxlen=7, fptrap=1), cfg="rel"),
             dict(j("big-fptrap", mode="big", fptrap=1), cfg="rel"),
             dict(j("ts-len5-fptrap", mode="ts", maxlen=5, fptrap=1), cfg="rel")]
